@@ -216,6 +216,75 @@ def m_kind_test(ex, st, callee, args):
     return [(None, Sc("bool", k.e == want))]
 
 
+def m_rsplit(ex, st, callee, args):
+    """str::rsplit(char): pieces from the END; modelled lazily for its `next()` calls"""
+    from strmodels import to_sstr
+    s_ = to_sstr(ex, st, args[0])
+    sep = args[1]
+    if s_ is None or not isinstance(sep, Sc):
+        raise Inconclusive("rsplit of %r by %r" % (args[0], args[1]))
+    return [(None, Adt("RSplitIter", None, [s_, sep, Sc("bool", z3.BoolVal(False))]))]
+
+
+def m_rsplit_next(ex, st, callee, args):
+    r = args[0]
+    it = ex.read(st, r.cell, r.path)
+    n_ = 0
+    while isinstance(it, Ref) and n_ < 4:
+        r = it
+        it = ex.read(st, r.cell, r.path)
+        n_ += 1
+    if not (isinstance(it, Adt) and it.ty == "RSplitIter"):
+        raise Inconclusive("rsplit next on %r" % (it,))
+    s_, sep, done = it.fields
+    if z3.is_true(z3.simplify(done.e)):
+        return [(None, NONE)]
+    cs = list(s_.fields)
+    n = len(cs)
+    out = []
+    for p in range(n - 1, -1, -1):
+        cond = z3.And(cs[p].e == sep.e, *[c.e != sep.e for c in cs[p + 1:]])
+        nxt = Adt("RSplitIter", None, [sstr(cs[:p]), sep, Sc("bool", z3.BoolVal(False))])
+        out.append((cond, ("write+", r, nxt, some(sstr(cs[p + 1:])))))
+    nosep = z3.And(*[c.e != sep.e for c in cs]) if cs else z3.BoolVal(True)
+    out.append((nosep, ("write+", r, Adt("RSplitIter", None, [sstr([]), sep, Sc("bool", z3.BoolVal(True))]), some(sstr(cs)))))
+    return out
+
+
+def m_option_str_eq(ex, st, callee, args):
+    from strmodels import to_sstr
+    a, b = _val(ex, st, args[0], depth=2), _val(ex, st, args[1], depth=2)
+    if not all(isinstance(x, Adt) and x.ty == "Option" for x in (a, b)):
+        raise Inconclusive("Option<&str> comparison of %r and %r" % (a, b))
+    neg = callee.endswith("::ne")
+    if a.variant != b.variant:
+        r = z3.BoolVal(False)
+    elif a.variant == "None":
+        r = z3.BoolVal(True)
+    else:
+        x, y = to_sstr(ex, st, a.fields[0]), to_sstr(ex, st, b.fields[0])
+        if x is None or y is None:
+            raise Inconclusive("Option<&str> comparison of abstract strings")
+        r = _str_eq(x, y)
+    return [(None, Sc("bool", z3.simplify(z3.Not(r) if neg else r)))]
+
+
+def m_path_kind(ex, st, callee, args):
+    """Path::is_dir / is_file / is_symlink on <DIR>/<listed name>: the entry's (symbolic) kind; is_dir / is_file follow links"""
+    p = _val(ex, st, args[0])
+    if not (isinstance(p, Adt) and p.ty == "PathBuf"):
+        raise Inconclusive("%s on %r" % (callee, p))
+    i = z3.simplify(p.fields[1].e).as_long()
+    k = _entry_kind(ex, st, i)
+    name = callee.split("::")[-1]
+    if name == "is_symlink":
+        return [(None, Sc("bool", k.e == 2))]
+    # a symbolic link may point at a file or at a directory: arbitrary
+    via_link = ex.fresh("bool", "link_target_is_%s" % name[3:]).e
+    want = {"is_file": 0, "is_dir": 1}[name]
+    return [(None, Sc("bool", z3.If(k.e == 2, via_link, k.e == want)))]
+
+
 def m_remove(ex, st, callee, args):
     target = _val(ex, st, args[0])
     kind = callee.split("::<")[0].split("::")[-1]
@@ -273,6 +342,10 @@ def install(m):
         (r"^(std::fs::)?(remove_file|remove_dir|remove_dir_all)::<", m_remove),
         (r"^std::io::_print$", m_print),
         (r"^std::ffi::OsStr::to_string_lossy$|^Path::to_string_lossy$", m_to_string_lossy),
+        (r"^(core::)?str::<impl str>::rsplit::<char>$", m_rsplit),
+        (r"^<(std::str::|core::str::)?RSplit<'_, char> as Iterator>::next$", m_rsplit_next),
+        (r"^<Option<&str> as PartialEq>::(eq|ne)$", m_option_str_eq),
+        (r"^Path::(is_dir|is_file|is_symlink)$|^PathBuf::(is_dir|is_file|is_symlink)$", m_path_kind),
         (r"^Path::canonicalize$|^(std::fs::)?canonicalize::<", m_canonicalize),
         (r"^DirEntry::(file_type|metadata)$", m_file_type),
         (r"^(std::fs::)?(FileType|Metadata)::(is_file|is_dir|is_symlink)$", m_kind_test),
